@@ -15,6 +15,7 @@ inductive Op where
   | get (k : Bytes) | getAll (k : Bytes) | has (k : Bytes) (v : Option Bytes)
   | iter (typ : Nat) | next (i : Nat)
   | swap
+  | feMut (k mk : Nat) (key val : Bytes)   -- forEach whose k-th callback call appends (0) / deletes by name (1) / sets (2)
   deriving Repr, Inhabited
 
 def hx (s : String) : Option Bytes := parseHexBytes s
@@ -48,6 +49,7 @@ def parseOps : List String → Nat → Option (List Op × List String)
       | "IE" :: r => some (.iter 2, r)
       | "N" :: i :: r => do pure (.next (← i.toNat?), r)
       | "X" :: r => some (.swap, r)
+      | "FM" :: k :: mk :: key :: v :: r => do pure (.feMut (← k.toNat?) (← mk.toNat?) (← hx key) (← hx v), r)
       | _ => none
     match one with
     | none => none
@@ -74,6 +76,24 @@ def step (useSpec : Bool) (st : St) : Op → St × String
   | .get k => (st, match get st.sp k with | none => "n" | some v => "v" ++ out v)
   | .getAll k => (st, "l" ++ ",".intercalate ((getAll st.sp k).map out))
   | .has k v => (st, if has st.sp k v then "t" else "f")
+  | .feMut k mk key v =>
+    -- the WHATWG iteration: position i against the list as it is now; the k-th call changes the list
+    let mutate (l : Params) : Params :=
+      if mk == 0 then append l key v
+      else if mk == 1 then (if useSpec then deleteSpec l key none else delete l key none)
+      else (if useSpec then setSpec l key v else set l key v)
+    let rec walk (fuel i : Nat) (l : Params) (seen : List String) : Params × List String :=
+      match fuel with
+      | 0 => (l, seen)
+      | fuel + 1 =>
+        match l[i]? with
+        | none => (l, seen)
+        | some p =>
+          let seen := seen ++ [out p.name ++ "=" ++ out p.value]
+          let l := if i == k then mutate l else l
+          walk fuel (i + 1) l seen
+    let (l, seen) := walk (st.sp.length + 2) 0 st.sp []
+    ({ st with sp := l }, "m" ++ ",".intercalate seen)
   | .swap => ({ st with sp := st.other, other := st.sp, iters := st.iters.map fun (t, i, o) => (t, i, !o) }, "-")
   | .iter t => ({ st with iters := st.iters ++ [(t, 0, false)] }, "-")
   | .next i =>
